@@ -156,6 +156,60 @@ func c14Oracle(in string) eng.Res {
 	return eng.OK(fmt.Sprintf("%s o%d e%d", c.Place, len(g1.Objects), len(g1.Edges)), true)
 }
 
+// ---- imports across directories: relative icons are rebased through every import hop ----------------------------------
+
+// c14Dirs: input JSON {Outer, Inner, Icon}: index.d2 imports sub/a.d2 (Outer form), which imports ../shared/b.d2 (Inner
+// form, written with a `../` prefix), which sets a relative icon. The twin has the icon written relative to index.d2.
+func c14Dirs(in string) eng.Res {
+	var c struct{ Outer, Inner, Icon string }
+	if err := json.Unmarshal([]byte(in), &c); err != nil {
+		return eng.Bad("harness-error", err.Error())
+	}
+	files := Files{
+		"sub/a.d2":    fmt.Sprintf(c.Inner, "../shared/b") + "\n",
+		"shared/b.d2": "p.icon: " + c.Icon + "\nq\n",
+	}
+	prog := fmt.Sprintf(c.Outer, "sub/a") + "\n"
+	want := c.Icon
+	if !strings.Contains(c.Icon, "://") && !strings.HasPrefix(c.Icon, "/") {
+		want = pathJoin("shared", c.Icon)
+	}
+	g, _, err := CompileFS("index.d2", prog, files)
+	if err != nil {
+		return eng.OK("rejected:"+msgKind(firstErr(err)), false)
+	}
+	var got []string
+	for _, o := range g.Objects {
+		if o.Icon != nil {
+			got = append(got, o.Icon.String())
+		}
+	}
+	if len(got) != 1 {
+		return eng.Bad("imported-icon-lost-or-duplicated", fmt.Sprintf("files %v program %q: icons %v", files, prog, got))
+	}
+	if got[0] != want {
+		return eng.Bad("relative-icon-not-rebased-onto-the-imported-file's-directory", fmt.Sprintf("files %v program %q: icon %q, the file lies at %q", files, prog, got[0], want))
+	}
+	return eng.OK("icon:"+want, true)
+}
+
+func pathJoin(dir, rel string) string {
+	parts := strings.Split(dir+"/"+rel, "/")
+	var out []string
+	for _, p := range parts {
+		switch p {
+		case "", ".":
+		case "..":
+			if len(out) > 0 {
+				out = out[:len(out)-1]
+			}
+		default:
+			out = append(out, p)
+		}
+	}
+	return strings.Join(out, "/")
+}
+
 // ---- cycles -------------------------------------------------------------------------------------------
 
 // c14Cycle: input JSON {"Files": {...}}; each file holds one object and at most one import of any form.
@@ -218,9 +272,9 @@ func c14Cycle(in string) eng.Res {
 func init() {
 	eng.Register(&eng.Check{
 		ID: "C14", Level: "exploration",
-		Rule: "equivalence: every imported file body of ≤2 (quick) / ≤3 (thorough) statements over the 17-statement fragment F14 (objects, labels, nesting, connections, case variant, *, ** and *** globs, relative icon, class, vars, layer, board link) × import spelling {x, ./x, x.d2, d/x} × placement {spread import as first statement of the file followed by one of 6 importer statements; `k: {...@x}`; `k: @x`}, compared with the inlined twin (imported * / ** globs expanded on the imported file's own objects, relative icon rebased, positions ignored) through the real compiler; cycles: every assignment of one import statement of 7 forms (or none) pointing at any file to each of 3 (quick) / 4 (thorough) files — all cycle lengths 1..n, reachable and unreachable — must report a cyclic-import error exactly when an independent reachability walk finds the chain returning to a file being imported",
+		Rule: "equivalence: every imported file body of ≤2 (quick) / ≤3 (thorough) statements over the 17-statement fragment F14 (objects, labels, nesting, connections, case variant, *, ** and *** globs, relative icon, class, vars, layer, board link) × import spelling {x, ./x, x.d2, d/x} × placement {spread import as first statement of the file followed by one of 6 importer statements; `k: {...@x}`; `k: @x`}, compared with the inlined twin (imported * / ** globs expanded on the imported file's own objects, relative icon rebased, positions ignored) through the real compiler; cycles: every assignment of one import statement of 7 forms (or none) pointing at any file to each of 3 (quick) / 4 (thorough) files — all cycle lengths 1..n, reachable and unreachable — ; a three-file chain across directories (index → sub/a → ../shared/b, 5×5 import forms × 6 icon spellings) must rebase a relative icon onto the imported file's directory; cycles must report a cyclic-import error exactly when an independent reachability walk finds the chain returning to a file being imported",
 		Assumptions: []string{"only the two placements the property defines are compared (top of file; sole content of a map)", "board blocks and board links of the imported file are compared only in the top-of-file placement"},
-		Oracles: map[string]eng.Oracle{"inline": c14Oracle, "cycle": c14Cycle},
+		Oracles: map[string]eng.Oracle{"inline": c14Oracle, "cycle": c14Cycle, "dirs": c14Dirs},
 		Run: func(w *eng.W) {
 			var alpha []string
 			for _, s := range f14 {
@@ -258,6 +312,18 @@ func init() {
 					})
 				})
 			}
+			w.Phase("imports-across-directories", func() {
+				forms := []string{"...@%s", "k: @%s", "k: {...@%s}", "...@\"%s\"", "k: @\"%s.d2\""}
+				icons := []string{"./img/i.png", "img/i.png", "../up.png", "i.png", "https://example.com/i.png", "./a/../b.png"}
+				for _, o := range forms {
+					for _, i := range forms {
+						for _, ic := range icons {
+							b, _ := json.Marshal(map[string]string{"Outer": o, "Inner": i, "Icon": ic})
+							w.Eval("dirs", string(b))
+						}
+					}
+				}
+			})
 			w.Phase("cycles", func() {
 				names := []string{"index", "x", "y"}
 				if w.Thorough() {
